@@ -64,15 +64,15 @@ type call struct {
 }
 
 type scenario struct {
-	Active   bool
-	Equip    bool
-	T3       time.Duration
-	T6       time.Duration
-	Senders  [][]sendSpec
-	Faulty   bool
+	Active     bool
+	Equip      bool
+	T3         time.Duration
+	T6         time.Duration
+	Senders    [][]sendSpec
+	Faulty     bool
 	LinkFaults []linkFault
-	CloseAt  time.Duration // application Close (0 = none)
-	Linktest time.Duration
+	CloseAt    time.Duration // application Close (0 = none)
+	Linktest   time.Duration
 }
 
 type linkFault struct {
@@ -88,18 +88,18 @@ type txInfo struct {
 }
 
 type harness struct {
-	w     *core.World
-	r     *rig.Rig
-	sc    scenario
-	calls []*call
-	nDone int
-	total int
-	sent  []*txInfo
-	held  *refhsms.RxFrame
-	heldC *refhsms.Conn
-	nRep  int
-	pending int
-	closedAt time.Duration
+	w           *core.World
+	r           *rig.Rig
+	sc          scenario
+	calls       []*call
+	nDone       int
+	total       int
+	sent        []*txInfo
+	held        *refhsms.RxFrame
+	heldC       *refhsms.Conn
+	nRep        int
+	pending     int
+	closedAt    time.Duration
 	actionsUsed map[string]int
 }
 
@@ -154,6 +154,10 @@ func genScenario(t *core.Tape, faulty bool) scenario {
 
 // Build returns the scenario builder for a configuration ("clean" or "faulty").
 func Build(config string) core.BuildFunc {
+	if config == "secs1" {
+		return buildSECS1()
+	}
+
 	return func(w *core.World) *core.Scenario {
 		h := &harness{w: w, actionsUsed: map[string]int{}}
 		h.sc = genScenario(w.T, config == "faulty")
